@@ -2,6 +2,10 @@
 
 use crate::runner::{RunCtx, Stage};
 
+pub mod common;
+pub mod c01;
+pub mod c07;
+pub mod c12;
 pub mod c15;
 pub mod c16;
 
@@ -20,5 +24,5 @@ macro_rules! prop {
 }
 
 pub fn registry() -> Vec<PropDef> {
-    vec![prop!("C15", c15), prop!("C16", c16)]
+    vec![prop!("C01", c01), prop!("C07", c07), prop!("C12", c12), prop!("C15", c15), prop!("C16", c16)]
 }
